@@ -173,6 +173,15 @@ func buildItems(tr tiers, seed uint64) []item {
 		src := strings.ReplaceAll(kernel.Pick(wr, wrappers), "%P%", kernel.Pick(wr, iterProgs))
 		add(Data{Src: src, Input: kernel.ValueSpec{JSON: kernel.Pick(wr, []string{`{"a":[1,2],"b":null}`, `[1,[2],"x"]`, `null`})}, Mode: "A", Origin: "custom-iterators-composed"})
 	}
+	// every error site in every calling context: the iterator still advances after the error
+	er := kernel.NewRand(kernel.Mix(seed, 7, 6))
+	for i := 0; i < tr.Compose; i++ {
+		e := workload.ErrorSites[er.Intn(len(workload.ErrorSites))]
+		if !workload.Deterministic(e.Src) {
+			continue
+		}
+		add(Data{Src: e.Src, Input: kernel.ValueSpec{JSON: e.In}, Mode: "A", Origin: "error-sites", ViaQuery: i%11 == 0})
+	}
 	corpus, _ := workload.Corpus()
 	for i, p := range corpus {
 		if !workload.Deterministic(p.Src) {
